@@ -122,7 +122,14 @@ def check(ck: Checker) -> None:
             for d in scope_of(move).get(e.id):
                 if d.kind == "aug" and isinstance(d.node.op, ast.BitOr) and _contains_meet(d.value, m.failed, m.entry_ids):
                     aug_nodes = [x for x in g.nodes.values() if x.ast is d.node]
-                    if aug_nodes and avoiding_path(g, t.id, lambda n: n.id == aug_nodes[0].id, start=m.head.id) is None:
+                    # the merge may be skipped only when nothing has failed so far (`if failed_ids:` around it)
+                    def nothing_failed(a, lab, b):
+                        e_ = a.ast
+                        if a.kind != "test":
+                            return False
+                        return (isinstance(e_, ast.Name) and e_.id == m.failed and lab == "F") or (norm(e_) == f"not {m.failed}" and lab == "T")
+
+                    if aug_nodes and avoiding_path(g, t.id, lambda n: n.id == aug_nodes[0].id, start=m.head.id, stop_edge=nothing_failed) is None:
                         return "earlier failures are merged into the tested set before the test"
             # v.update(failed & entry_ids) dominating the test
             for x in m.body:
